@@ -334,8 +334,8 @@ Proof.
   assert (I1 : is_RInt f (- PI) PI m).
   { apply (arc_measure_is_integral P); auto. exists l. auto. }
   assert (I2 : is_RInt f (- PI) PI m') by (apply (arc_measure_is_integral P); auto).
-  pose proof (is_RInt_unique (V := R_NormedModule) f (- PI) PI m I1) as U1.
-  pose proof (is_RInt_unique (V := R_NormedModule) f (- PI) PI m' I2) as U2.
+  pose proof (is_RInt_unique (V := R_CompleteNormedModule) f (- PI) PI m I1) as U1.
+  pose proof (is_RInt_unique (V := R_CompleteNormedModule) f (- PI) PI m' I2) as U2.
   rewrite <- U1. exact U2.
 Qed.
 
